@@ -127,6 +127,15 @@ BwtDef(t, sa) == LET n == Len(t) IN [r \in 1..n |-> IF sa[r] > 0 THEN t[sa[r]] E
 LessDef(t, c) == Cardinality({i \in 1..Len(t) : t[i] < c})
 \* occurrences of c in bwt[0..=r]
 OccDef(bwt, r, c) == Cardinality({x \in 1..(r + 1) : bwt[x] = c})
+\* row = <<OccDef(bwt, 0, c), ..., OccDef(bwt, n-1, c)>> stated as the recurrence it satisfies (linear to
+\* evaluate; the equivalence with OccDef on every row is an MC lemma, SuffixIndexMC_C04!OccRowLemma)
+OccRowRec(bwt, c, row) ==
+    /\ Len(row) = Len(bwt)
+    /\ \A r \in 1..Len(bwt) :
+          row[r] = (IF r = 1 THEN 0 ELSE row[r - 1]) + (IF bwt[r] = c THEN 1 ELSE 0)
+OccRowDef(bwt, c, row) ==
+    /\ Len(row) = Len(bwt)
+    /\ \A r \in 1..Len(bwt) : row[r] = OccDef(bwt, r - 1, c)
 CountIn(s, lo, hi, c) == Cardinality({x \in lo..hi : s[x] = c})          \* 1-based inclusive slice
 
 \* -------------------------------------------------- FM backward search
